@@ -408,11 +408,16 @@ def iterjoin(left, right, lkey, rkey, leftouter=False, rightouter=False,
     # loop until *either* of the iterators is exhausted
     # initialise here to handle empty tables
     lkval, rkval = Comparable(None), Comparable(None)
+    # keep track of whether a group has been fetched but not yet dealt with
+    # (cannot be decided by comparing key values, as None is a valid key)
+    lhanging = rhanging = False
     try:
 
         # pick off initial row groups
         lkval, lrowgrp = next(lgit)
+        lhanging = True
         rkval, rrowgrp = next(rgit)
+        rhanging = True
 
         while True:
             if lkval < rkval:
@@ -420,26 +425,33 @@ def iterjoin(left, right, lkey, rkey, leftouter=False, rightouter=False,
                     for row in joinrows(lrowgrp, None):
                         yield tuple(row)
                 # advance left
+                lhanging = False
                 lkval, lrowgrp = next(lgit)
+                lhanging = True
             elif lkval > rkval:
                 if rightouter:
                     for row in joinrows(None, rrowgrp):
                         yield tuple(row)
                 # advance right
+                rhanging = False
                 rkval, rrowgrp = next(rgit)
+                rhanging = True
             else:
                 for row in joinrows(lrowgrp, rrowgrp):
                     yield tuple(row)
                 # advance both
+                lhanging = rhanging = False
                 lkval, lrowgrp = next(lgit)
+                lhanging = True
                 rkval, rrowgrp = next(rgit)
+                rhanging = True
 
     except StopIteration:
         pass
 
     # make sure any left rows remaining are yielded
     if leftouter:
-        if lkval > rkval:
+        if lhanging:
             # yield anything that got left hanging
             for row in joinrows(lrowgrp, None):
                 yield tuple(row)
@@ -450,7 +462,7 @@ def iterjoin(left, right, lkey, rkey, leftouter=False, rightouter=False,
 
     # make sure any right rows remaining are yielded
     if rightouter:
-        if lkval < rkval:
+        if rhanging:
             # yield anything that got left hanging
             for row in joinrows(None, rrowgrp):
                 yield tuple(row)
